@@ -144,6 +144,10 @@ def checkHay (c : Case) (da : DA Int) (P : List (Pat Int)) (a : Acc) (hay : Hay)
     | some r, some (some ms) =>
       if r.items.map (·.1) != ms then
         a := a.prop "C12" c.id s!"method={m} hay={hx} from_iter=[{showMatches (r.items.map (·.1))}] slice=[{showMatches ms}]"
+      -- the byte-iterator entry points are entry points of C01/C02/C05 as well
+      let spec := specResults P c.kind m h
+      if r.items.map (·.1) != spec then
+        a := a.prop (propOf c.kind m) c.id s!"method={m} entry=from_iter hay={hx} got=[{showMatches (r.items.map (·.1))}] want=[{showMatches spec}]"
       for (mm, pulled) in r.items do
         if pulled != mm.stop then
           a := a.prop "C12" c.id s!"method={m} hay={hx} match={mm.start},{mm.stop} pulled={pulled} want={mm.stop}"
@@ -392,7 +396,9 @@ def checkCase (env : Env) (c : Case) : Env × Array String := Id.run do
       if eq != 1 then a := a.prop "C09" c.id "deserialised automaton is not equal to the original"
       if rest != 1 then a := a.prop "C09" c.id "deserialisation did not hand back exactly the trailing bytes"
       if reser != 1 then a := a.prop "C09" c.id "re-serialising the restored automaton gives different bytes"
-      if search != 1 then a := a.prop "C09" c.id "restored automaton answers a search differently"
+      if search != 1 then
+        a := a.prop "C09" c.id "restored automaton answers a search differently"
+        a := a.prop "C06" c.id "after a serialisation round trip a search returns different matches/values"
     | none => pure ()
   -- C08: B/C pairs (ids x<n>b / x<n>c)
   let results := c.hays.toList.map fun h => (h.bytes, h.r)
